@@ -476,6 +476,7 @@ bool Component::doEquals(const EntityPtr &other) const
     if (ComponentEntity::doEquals(other)) {
         auto component = std::dynamic_pointer_cast<Component>(other);
         return (component != nullptr) && areEqual(pFunc()->mMath, component->math())
+               && (pFunc()->mResets.size() == component->resetCount())
                && pFunc()->equalResets(component) && pFunc()->equalVariables(component)
                && ImportedEntity::doEquals(component);
     }
